@@ -25,6 +25,12 @@ let () =
         (* set_error_bits(code): errorCode |= code | COLVARS_ERROR, from one thread per code *)
         let codes = List.map (fun s -> Z.coq_lor (z_of_int (int_of_string s)) (z_of_int 1)) (List.tl (Array.to_list w)) in
         Printf.printf "ERRBITS %d\n" (int_of_z (or_codes codes))
+      end else if Array.length w > 0 && w.(0) = "OMPSTATIC" then begin
+        (* OMPSTATIC n nt : the OpenMP thread of every item under the static schedule *)
+        let n = int_of_string w.(1) and nt = int_of_string w.(2) in
+        print_string "ITHREADS";
+        for i = 0 to n - 1 do Printf.printf " %d" (int_of_nat (omp_thread_of (nat_of_int n) (nat_of_int nt) (nat_of_int i))) done;
+        print_newline ()
       end else if Array.length w > 0 && w.(0) = "FOOT" then begin
         (* FOOT t nv {tsf nc flag*nc coeff*nc exp*nc}*nv nb {tsf nbv v*nbv k c*nbv}*nb use after nsc {v f}*nsc : the model's footprint table *)
         let p = ref 1 in
